@@ -291,6 +291,71 @@ def run(report, p):
     else:
         r7.check(False, ad, ad.node, "the child's root hash is not copied one history level up", construct="copy-up missing")
 
+    # ------------------------------------------------------------------ R8.9
+    r9 = report.rule(
+        "R8.9",
+        "the parent's manifest names every child generation it was handed: the writer's loop over the referenced hash lists emits one <hashlistreference> per item on every path "
+        "of an iteration (no `continue`, no condition): two children can have identical manifest FILE NAMES (same folder name, same generation, same second) - they are still two references",
+        1,
+    )
+    from .xmlcommon import writers as _writers
+
+    mw_, _cw = _writers(p)
+    gmw = cfg_of(mw_)
+    rloops = [n for n in walk_no_nested(mw_.node) if isinstance(n, ast.For) and "referenced_hash_lists" in norm(n.iter)]
+    if not rloops:
+        # the loop may sit in a writer helper of the same module
+        for q in p.reachable([mw_.qual]):
+            f2 = p.funcs.get(q)
+            if f2 is not None and f2.module is mw_.module:
+                for n in walk_no_nested(f2.node):
+                    if isinstance(n, ast.For) and any(any(st_[0] == "attr" and st_[2] == "referenced_hash_lists" for st_ in subterms(pr.expand_params(o, depth=2))) for o in pr.origins(n.iter, f2)):
+                        rloops.append(n)
+                        mw_, gmw = f2, cfg_of(f2)
+    if len(rloops) != 1:
+        raise AnalysisError(f"manifest writer: the loop over the referenced hash lists was not found ({len(rloops)})")
+    rl = rloops[0]
+    r9.instance(mw_, rl, f"for {norm(rl.target)} in {norm(rl.iter)[:50]}")
+    r9.check(is_plain_iter(p, rl.iter), mw_, rl.iter, "the writer does not go through every referenced hash list", construct="reference loop iterable")
+    emits = {gmw.node_for(c).id for c, tg in p.calls[mw_.qual] if any(x is c for st in rl.body for x in ast.walk(st)) and any("_ascmhlreference_xml_element" in norm(a) or norm(rl.target) in norm(a) for a in c.args) and any(t.endswith(("_write_xml_element_to_file",)) or "write" in t for t in tg)}
+    head = gmw.by_ast[id(rl)]
+    path = gmw.find_path(head, {head.id, gmw.exit.id}, avoid=emits, first_edges=[(m, l) for m, l in head.succ if l == "iter"])
+    r9.check(bool(emits) and path is None, mw_, rl, "an iteration over the referenced hash lists can pass without a <hashlistreference> being written: the parent's manifest then lacks the reference to one of its children's new generations", witness=gmw.fmt_path(path) if path else None, construct="reference skipped in the manifest writer")
+
+    # ------------------------------------------------------------------ R8.8
+    r8 = report.rule(
+        "R8.8",
+        "recorded entries are looked up where they were recorded: every lookup of a file's entries (original entry, first entry of a format, existing formats, directory entries) "
+        "in a function that routes the path (`history, relative = <root>.find_history_for_path(path)`) is made on the ROUTED history with the ROUTED relative path - "
+        "asking the root history with the root-relative path finds nothing for a file that lives in a nested history",
+        6,
+    )
+    LOOKUPS = ("find_original_hash_entry_for_path", "find_first_hash_entry_for_path", "find_existing_hash_formats_for_path", "find_directory_hash_entries_for_path")
+
+    def _routed(term):
+        return any(st_[0] == "call" and st_[1].endswith("find_history_for_path") for st_ in subterms(term))
+
+    for fq, f in sorted(p.funcs.items()):
+        if not f.module.name.endswith(("commands", "generator")):
+            continue
+        routes = [c for c, tg in p.calls[fq] if any(t.endswith("find_history_for_path") for t in tg)]
+        if not routes:
+            continue
+        for c, tg in p.calls[fq]:
+            if not any(t.split(".")[-1] in LOOKUPS for t in tg) or not isinstance(c.func, ast.Attribute) or not c.args:
+                continue
+            r8.instance(f, c, norm(c)[:80])
+            ro = pr.origins(c.func.value, f)
+            ao = pr.origins(c.args[0], f)
+            recv_routed = bool(ro) and all(_routed(o) for o in ro)
+            arg_routed = bool(ao) and any(_routed(o) for o in ao)
+            if recv_routed and arg_routed:
+                r8.check(True, f, c, "")
+            elif not recv_routed and not arg_routed:
+                r8.check(False, f, c, f"`{norm(c)[:70]}` asks `{norm(c.func.value)}` with `{norm(c.args[0])[:40]}` although this function routes the path to the history that holds it ({norm(routes[0])[:60]}): for a file inside a nested history the lookup finds nothing (the file looks unrecorded, its original format is not generated / verified)", construct=f"lookup {c.func.attr} bypasses the routed history")
+            else:
+                r8.check(False, f, c, f"`{norm(c)[:70]}` combines {'the routed history with an unrouted path' if recv_routed else 'an unrouted history with the routed path'}: the path is not relative to the history that is asked", construct=f"lookup {c.func.attr} mixes routed and unrouted history / path")
+
     # ---- rules shared with other properties (same mechanism, same rule, reported under every property it can break)
     include_rules(report, p, 'c05', ['R5.7'], 'every nested ascmhl folder must be discovered as a child history')
     include_rules(report, p, 'c03', ['R3.10'], 'the commit loop and the loader test hash lists for presence')
